@@ -13,7 +13,7 @@ import (
 type ev struct {
 	E        string `json:"e"`
 	Run      int    `json:"run"`
-	Nb       int    `json:"nb"`
+	Skip     int    `json:"skip"` // events from this one to the next begin (position independent)
 	Algo     string `json:"algo"`
 	Maxit    int    `json:"maxit"`
 	HasHook  bool   `json:"hashook"`
